@@ -87,6 +87,9 @@ func pruneWorld(r *core.Run, prop string) []*core.Violation {
 		if i < 25 {
 			w.RandomJobTraffic(2)
 		}
+		if len(attesters) > 0 && t.Chance(1, 10) {
+			w.reAttest(attesters[t.Intn(len(attesters))]) // a retry or a correction: the attester must still count once
+		}
 		br := w.Step()
 		if w.Aborted {
 			break
